@@ -352,7 +352,7 @@ func zvBuildNodeServiceList(es []zvPE, flag bool, lv *zvLeaves) any {
 // ACL objects
 // ---------------------------------------------------------------------------------------------
 
-var zvACLAlpha = []zvElem{{Name: "o1", Token: "secret-1"}, {Name: "o2", Token: "secret-2"}, {Name: "o1", Token: "secret-1"}}
+var zvACLAlpha = []zvElem{{Name: "o1", Token: "secret-1"}, {Name: "o2", Token: "secret-2"}}
 
 // zvACLList: list of ACL objects: visible iff acl:read; secrets shown only with acl:write
 func zvACLList[T any](name string, mk func(e zvPE, secret string) *T, wrap func([]*T) any, hasSecret bool) zvType {
@@ -369,7 +369,7 @@ func zvACLList[T any](name string, mk func(e zvPE, secret string) *T, wrap func(
 		}
 		return wrap(out)
 	}
-	return zvType{name: name, usesACL: true, alpha: zvACLAlpha[:2], maxLen: 5,
+	return zvType{name: name, usesACL: true, alpha: zvACLAlpha, maxLen: 5,
 		build: func(es []zvPE, lv *zvLeaves) any { return build(es, false, lv) },
 		expect: func(r zvRef, es []zvPE) zvExpect {
 			if !r.aclRead() {
@@ -463,10 +463,10 @@ func zvPQs(es []zvPE, redact bool, flag bool, lv *zvLeaves) any {
 
 func zvTypes() []zvType {
 	csnAlpha := []zvElem{
-		{Node: "n1", Svc: "web"},                // readable
-		{Node: "n2", Svc: "web"},                // unreadable node + readable service
-		{Node: "n1", Svc: "db"},                 // readable node + unreadable service
-		{Node: "n1x", Svc: "api"},               // readable
+		{Node: "n1", Svc: "web"},               // readable
+		{Node: "n2", Svc: "web"},               // unreadable node + readable service
+		{Node: "n1", Svc: "db"},                // readable node + unreadable service
+		{Node: "n1x", Svc: "api"},              // readable
 		{Node: "n2", Svc: "db", Peer: "peerA"}, // imported: readable under the peer's context only
 	}
 	csnSmall := csnAlpha[:3]
